@@ -243,9 +243,29 @@ impl MemReader {
         // I don't think there would ever be a case where we would not read on word boundaries, but just in case...
         let last = chunks.into_remainder();
         if !last.is_empty() {
-            let word = nix::sys::ptrace::read(pid, (src + offset) as *mut std::ffi::c_void)
-                .map_err(|err| (err, offset))?;
-            last.copy_from_slice(&word.to_ne_bytes()[..last.len()]);
+            // Only read word-aligned words for the remainder: an aligned word never straddles a
+            // page boundary, so it is readable whenever one of the requested bytes in it is,
+            // whereas a word starting at the remainder could reach past the end of a mapping.
+            const WORD: usize = std::mem::size_of::<usize>();
+            let start = src
+                .checked_add(offset)
+                .ok_or((nix::Error::EFAULT, offset))?;
+            let end = start
+                .checked_add(last.len())
+                .ok_or((nix::Error::EFAULT, offset))?;
+            let mut addr = start & !(WORD - 1);
+            while addr < end {
+                let word = nix::sys::ptrace::read(pid, addr as *mut std::ffi::c_void)
+                    .map_err(|err| (err, offset))?;
+                let from = start.max(addr);
+                let to = end.min(addr.saturating_add(WORD));
+                last[from - start..to - start]
+                    .copy_from_slice(&word.to_ne_bytes()[from - addr..to - addr]);
+                match addr.checked_add(WORD) {
+                    Some(next) => addr = next,
+                    None => break,
+                }
+            }
         }
 
         Ok(dst.len())
